@@ -15,6 +15,8 @@ CONSTANTS
   Cards = {100, 320}
   WithCut = TRUE
   WithFormat = TRUE
+  WithOutage = TRUE
+  Retries = 2
 INVARIANT TypeOK
 INVARIANT RoundTrip
 INVARIANT WriteOk
